@@ -76,6 +76,26 @@ func init() {
 			{Name: "rewrite: source read through a handle before the destination is opened; temp file + rename", Edits: []Edit{
 				{File: "internal/embed/embed.go", Old: "\tsrcData, err := os.ReadFile(srcBinary)\n", New: "\tsrcFile, err := os.Open(srcBinary)\n\tif err != nil {\n\t\treturn err\n\t}\n\tsrcData, err := io.ReadAll(srcFile)\n\tsrcFile.Close()\n"},
 			}},
+			{Name: "rewrite: footer decoding and the bound check extracted into helpers (length passed as a parameter)", Edits: []Edit{
+				{File: "internal/embed/embed.go", Old: "\tconfigLen := binary.LittleEndian.Uint64(footer[:8])\n\tif configLen > uint64(fileSize-FooterSize) {\n\t\treturn 0, ErrConfigTooLarge", New: "\tconfigLen := footerLength(footer)\n\tif !lengthFits(configLen, fileSize) {\n\t\treturn 0, ErrConfigTooLarge"},
+				{File: "internal/embed/embed.go", Old: "// GetOriginalBinarySize returns the size", New: "func footerLength(footer []byte) uint64 {\n\treturn binary.LittleEndian.Uint64(footer[:8])\n}\n\nfunc lengthFits(n uint64, size int64) bool {\n\treturn n <= uint64(size-FooterSize)\n}\n\n// GetOriginalBinarySize returns the size"},
+			}},
+			{Name: "bound-check helper compares the signed conversion", ExpectRule: "C36.R1", ExpectKey: "GetOriginalBinarySize", Edits: []Edit{
+				{File: "internal/embed/embed.go", Old: "\tconfigLen := binary.LittleEndian.Uint64(footer[:8])\n\tif configLen > uint64(fileSize-FooterSize) {\n\t\treturn 0, ErrConfigTooLarge", New: "\tconfigLen := binary.LittleEndian.Uint64(footer[:8])\n\tif !lengthFits(configLen, fileSize) {\n\t\treturn 0, ErrConfigTooLarge"},
+				{File: "internal/embed/embed.go", Old: "// GetOriginalBinarySize returns the size", New: "func lengthFits(n uint64, size int64) bool {\n\treturn int64(n) <= size-FooterSize\n}\n\n// GetOriginalBinarySize returns the size"},
+			}},
+			{Name: "rewrite: trailer facts kept in a struct with fits()/start() methods, payload read by a helper", Edits: []Edit{
+				{File: "internal/embed/embed.go", Old: "\tconfigLen := binary.LittleEndian.Uint64(footer[:8])\n\tif configLen > uint64(fileSize-FooterSize) {\n\t\treturn 0, ErrConfigTooLarge\n\t}\n\treturn fileSize - FooterSize - int64(configLen), nil", New: "\tl := trailerInfo{size: fileSize, length: binary.LittleEndian.Uint64(footer[:8])}\n\tif !l.fits() {\n\t\treturn 0, ErrConfigTooLarge\n\t}\n\treturn l.start(), nil"},
+				{File: "internal/embed/embed.go", Old: "// GetOriginalBinarySize returns the size", New: "type trailerInfo struct {\n\tsize   int64\n\tlength uint64\n}\n\nfunc (l trailerInfo) footerStart() int64 { return l.size - FooterSize }\n\nfunc (l trailerInfo) fits() bool { return l.length <= uint64(l.footerStart()) }\n\nfunc (l trailerInfo) start() int64 { return l.footerStart() - int64(l.length) }\n\n// GetOriginalBinarySize returns the size"},
+			}},
+			{Name: "struct-held length used without consulting fits()", ExpectRule: "C36.R1", ExpectKey: "start", Edits: []Edit{
+				{File: "internal/embed/embed.go", Old: "\tconfigLen := binary.LittleEndian.Uint64(footer[:8])\n\tif configLen > uint64(fileSize-FooterSize) {\n\t\treturn 0, ErrConfigTooLarge\n\t}\n\treturn fileSize - FooterSize - int64(configLen), nil", New: "\tl := trailerInfo{size: fileSize, length: binary.LittleEndian.Uint64(footer[:8])}\n\treturn l.start(), nil"},
+				{File: "internal/embed/embed.go", Old: "// GetOriginalBinarySize returns the size", New: "type trailerInfo struct {\n\tsize   int64\n\tlength uint64\n}\n\nfunc (l trailerInfo) footerStart() int64 { return l.size - FooterSize }\n\nfunc (l trailerInfo) start() int64 { return l.footerStart() - int64(l.length) }\n\n// GetOriginalBinarySize returns the size"},
+			}},
+			{Name: "rewrite: footer built by a helper with AppendUint64, magic compared through bytes.Equal helper", Edits: []Edit{
+				{File: "internal/embed/embed.go", Old: "\tfooter := make([]byte, FooterSize)\n\tbinary.LittleEndian.PutUint64(footer[:8], uint64(len(xorConfig)))\n\tcopy(footer[8:], Magic[:])\n", New: "\tfooter := makeFooter(len(xorConfig))\n"},
+				{File: "internal/embed/embed.go", Old: "// GetOriginalBinarySize returns the size", New: "func makeFooter(n int) []byte {\n\tbuf := make([]byte, 0, FooterSize)\n\tbuf = binary.LittleEndian.AppendUint64(buf, uint64(n))\n\treturn append(buf, Magic[:]...)\n}\n\n// GetOriginalBinarySize returns the size"},
+			}},
 			{Name: "rewrite: reject via <=, signed check with non-negativity test, helper constant", Edits: []Edit{
 				{File: "internal/embed/embed.go", Old: "\tif configLen > uint64(fileSize-FooterSize) {\n\t\treturn nil, ErrConfigTooLarge\n\t}", New: "\tif maxLen := uint64(fileSize - FooterSize); !(configLen <= maxLen) {\n\t\treturn nil, ErrConfigTooLarge\n\t}"},
 				{File: "internal/embed/embed.go", Old: "\tif configLen > uint64(fileSize-FooterSize) {\n\t\treturn 0, ErrConfigTooLarge\n\t}\n\treturn fileSize - FooterSize - int64(configLen), nil", New: "\tn := int64(configLen)\n\tif n < 0 || fileSize-FooterSize < n {\n\t\treturn 0, ErrConfigTooLarge\n\t}\n\treturn fileSize - FooterSize - n, nil"},
@@ -98,7 +118,14 @@ func c36IsDecode(cal kit.Callee) bool {
 }
 
 func c36IsEncode(cal kit.Callee) bool {
-	return cal.Pkg == "encoding/binary" && (cal.Name == "PutUint64" || cal.Name == "PutUint32" || cal.Name == "PutUint16")
+	if cal.Pkg != "encoding/binary" {
+		return false
+	}
+	switch cal.Name {
+	case "PutUint64", "PutUint32", "PutUint16", "AppendUint64", "AppendUint32", "AppendUint16":
+		return true
+	}
+	return false
 }
 
 func c36IsCompare(op token.Token) bool {
@@ -210,6 +237,7 @@ type c36Bound struct {
 	strict   bool
 	x        ssa.Value
 	at       string
+	cn       *c36Canon // the bound in canonical form, translated to the frame of the use (predicate helpers)
 }
 
 type c36Facts struct {
@@ -392,42 +420,33 @@ func runC36(p *kit.Program, r *kit.Report) {
 	}
 
 	// ---- R1
-	failedR1 := map[*ssa.Function]bool{}
-	type work struct {
-		fn    *ssa.Function
-		roots []ssa.Value
-		via   string
-	}
-	var queue []work
+	cx := newC36Cx(p, fns)
+	var decodes []*ssa.Call
 	for _, rd := range readers {
-		rd.taint = c36Taint([]ssa.Value{rd.decode})
-		queue = append(queue, work{rd.fn, []ssa.Value{rd.decode}, ""})
+		decodes = append(decodes, rd.decode)
 	}
-	seenWork := map[string]bool{}
-	taintAll := map[ssa.Value]bool{}
+	cx.propagate(decodes)
+	for _, rd := range readers {
+		rd.taint = cx.valClass[rd.decode].members
+	}
+	r.Count("length_carrying_fields", len(cx.fieldTaint))
 	nSinks := 0
-	for len(queue) > 0 {
-		w := queue[0]
-		queue = queue[1:]
-		taint := c36Taint(w.roots)
-		for v := range taint {
-			taintAll[v] = true
-		}
-		fname := kit.FuncName(w.fn)
+	for _, fn := range fns {
+		fname := kit.FuncName(fn)
 		ord := map[string]int{}
-		kit.Instrs(w.fn, func(in ssa.Instruction) {
-			uses := false
+		kit.Instrs(fn, func(in ssa.Instruction) {
+			var cls *c36Class
 			for _, op := range in.Operands(nil) {
-				if op != nil && *op != nil && taint[*op] {
-					uses = true
+				if op != nil && *op != nil && cx.tainted(*op) {
+					cls = cx.valClass[*op]
 				}
 			}
-			if !uses {
+			if cls == nil {
 				return
 			}
 			kind := ""
 			switch x := in.(type) {
-			case *ssa.Convert, *ssa.ChangeType, *ssa.DebugRef:
+			case *ssa.Convert, *ssa.ChangeType, *ssa.DebugRef, *ssa.Field, *ssa.FieldAddr, *ssa.Extract:
 				return // propagates, judged at its own uses
 			case *ssa.BinOp:
 				if c36IsCompare(x.Op) {
@@ -439,44 +458,22 @@ func runC36(p *kit.Program, r *kit.Report) {
 			case *ssa.Slice, *ssa.IndexAddr, *ssa.Index:
 				kind = "slice bound"
 			case *ssa.Return:
-				// the raw length leaves the function: judged where the callers use it
-				sound, _ := c36FactsAt(p, kit.GuardsOf(in), taint).sound()
-				if sound {
-					return
-				}
-				for i, res := range x.Results {
-					v := kit.ReturnResult(x, i)
-					if !taint[res] && !taint[v] {
-						continue
-					}
-					for _, site := range p.StaticCallers(w.fn) {
-						call, ok := site.(*ssa.Call)
-						if !ok {
-							continue
-						}
-						var root ssa.Value = call
-						if w.fn.Signature.Results().Len() > 1 {
-							root = kit.ExtractOf(call, i)
-						}
-						k := fmt.Sprintf("%s|%s|%d", kit.FuncName(site.Parent()), kit.FuncName(w.fn), i)
-						if root != nil && !seenWork[k] {
-							seenWork[k] = true
-							queue = append(queue, work{site.Parent(), []ssa.Value{root}, " (length returned by " + fname + ")"})
-						}
-					}
-				}
-				return
+				return // the length leaves the function: judged where the callers use it
 			case *ssa.Store:
-				if taint[x.Val] {
-					// spill of a result before a deferred call runs: treated like the return
-					if a, ok := x.Addr.(*ssa.Alloc); ok && a.Comment == "" {
-						return
-					}
-					kind = "store"
-				} else {
+				if !cx.tainted(x.Val) {
 					return
 				}
+				if _, isField := x.Addr.(*ssa.FieldAddr); isField {
+					return // kept in a struct field: judged at the loads of that field
+				}
+				if a, ok := x.Addr.(*ssa.Alloc); ok && a.Comment == "" {
+					return // spill of a result before a deferred call runs: like the return
+				}
+				kind = "store"
 			case ssa.CallInstruction:
+				if cal := kit.CalleeOf(x); cal.Static != nil && cx.inPkg[cal.Static] {
+					return // handed to a package helper: judged at its uses there
+				}
 				kind = "argument of " + kit.CalleeOf(x).String()
 			case *ssa.MakeInterface:
 				return // formatting / logging of the raw value (error messages) cannot crash or read
@@ -486,13 +483,10 @@ func runC36(p *kit.Program, r *kit.Report) {
 			nSinks++
 			ord[kind]++
 			key := fmt.Sprintf("%s %s #%d", fname, kind, ord[kind])
-			ok, why := c36FactsAt(p, kit.GuardsOf(in), taint).sound()
-			if !ok {
-				failedR1[w.fn] = true
-			}
+			ok, why := cx.sound(cx.factsAt(cls, in, 0))
 			r.Decide(ok, "C36.R1", key, p.Pos(in.Pos()),
-				"length is range-checked before this use: "+why+w.via,
-				"the footer length reaches this "+kind+" without a range check that holds for all 2^64 values ("+why+")"+w.via+": a trailer with length 0x8000000000000000 (or larger than the file) makes the reader allocate/compute with a negative or huge size and panic")
+				"length is range-checked before this use: "+why,
+				"the footer length reaches this "+kind+" without a range check that holds for all 2^64 values ("+why+"): a trailer with length 0x8000000000000000 (or larger than the file) makes the reader allocate/compute with a negative or huge size and panic")
 		})
 	}
 	r.Count("length_uses_checked", nSinks)
@@ -525,11 +519,6 @@ func runC36(p *kit.Program, r *kit.Report) {
 	r.OK("C36.R3", "no explicit panic or exit", p.Pos(fns[0].Pos()), "%d functions scanned, %d explicit panic/exit sites", len(fns), nPanic)
 
 	// ---- R3: allocation sizes
-	for _, rd := range readers {
-		for v := range rd.taint {
-			taintAll[v] = true
-		}
-	}
 	nAlloc := 0
 	for _, fn := range fns {
 		ord := 0
@@ -544,7 +533,7 @@ func runC36(p *kit.Program, r *kit.Report) {
 			nAlloc++
 			ord++
 			key := fmt.Sprintf("%s allocation #%d", kit.FuncName(fn), ord)
-			okSize, why := c36SizeOK(p, ms.Len, ms, taintAll, failedR1, 0)
+			okSize, why := cx.sizeOK(ms.Len, ms, 0)
 			r.Decide(okSize, "C36.R3", key, p.Pos(ms.Pos()),
 				"allocation size is "+why,
 				"allocation size is "+why+": make panics (len out of range) for a malformed trailer")
@@ -553,18 +542,18 @@ func runC36(p *kit.Program, r *kit.Report) {
 	r.Count("dynamic_allocations", nAlloc)
 
 	// ---- R2: layout agreement
-	c36Layout(p, r, readers, writerFn, encode, footerSize)
+	c36Layout(cx, r, readers, writerFn, encode, footerSize)
 
 	// ---- R4: in-place safety
 	c36InPlace(p, r, fns)
 }
 
-// c36SizeOK classifies the value used as an allocation size at instruction at.
-func c36SizeOK(p *kit.Program, v ssa.Value, at ssa.Instruction, taint map[ssa.Value]bool, failedR1 map[*ssa.Function]bool, depth int) (bool, string) {
+// sizeOK classifies the value used as an allocation size at instruction at.
+func (cx *c36Cx) sizeOK(v ssa.Value, at ssa.Instruction, depth int) (bool, string) {
 	leaves := kit.PhiLeaves(v)
 	last := "unknown"
 	for _, leaf := range leaves {
-		ok, why := c36SizeLeafOK(p, leaf, at, taint, failedR1, depth)
+		ok, why := cx.sizeLeafOK(leaf, at, depth)
 		if !ok {
 			return false, why
 		}
@@ -576,9 +565,9 @@ func c36SizeOK(p *kit.Program, v ssa.Value, at ssa.Instruction, taint map[ssa.Va
 	return true, last
 }
 
-func c36SizeLeafOK(p *kit.Program, v ssa.Value, at ssa.Instruction, taint map[ssa.Value]bool, failedR1 map[*ssa.Function]bool, depth int) (bool, string) {
-	if taint[v] {
-		ok, why := c36FactsAt(p, kit.GuardsOf(at), taint).sound()
+func (cx *c36Cx) sizeLeafOK(v ssa.Value, at ssa.Instruction, depth int) (bool, string) {
+	if cls := cx.valClass[v]; cls != nil {
+		ok, why := cx.sound(cx.factsAt(cls, at, 0))
 		if ok {
 			return true, "the footer length, range-checked (" + why + ")"
 		}
@@ -588,7 +577,7 @@ func c36SizeLeafOK(p *kit.Program, v ssa.Value, at ssa.Instruction, taint map[ss
 	// A - length
 	var tsym ssa.Value
 	for s, k := range l.Terms {
-		if taint[s] {
+		if cx.tainted(s) {
 			if k != -1 || tsym != nil {
 				return false, "an expression over the footer length that is not of the form A - length"
 			}
@@ -596,19 +585,18 @@ func c36SizeLeafOK(p *kit.Program, v ssa.Value, at ssa.Instruction, taint map[ss
 		}
 	}
 	if tsym != nil {
-		rest := kit.Linear{Terms: map[ssa.Value]int64{}, Const: l.Const}
-		for s, k := range l.Terms {
-			if s != tsym {
-				rest.Terms[s] = k
-			}
+		// rest = v + length, in canonical form
+		rest := cx.canon(v)
+		rest.terms["L"]++
+		if rest.terms["L"] == 0 {
+			delete(rest.terms, "L")
 		}
 		// the guards that matter are those at the arithmetic itself
 		var site ssa.Instruction = at
 		if in, ok := v.(ssa.Instruction); ok {
 			site = in
 		}
-		f := c36FactsAt(p, kit.GuardsOf(site), taint)
-		if f.tight(rest) {
+		if cx.tight(cx.factsAt(cx.valClass[tsym], site, 0), rest) {
 			return true, "'A - length' with length bounded by A (never negative)"
 		}
 		return false, "'A - length' where no dominating check bounds the length by A: the size can be negative"
@@ -621,13 +609,10 @@ func c36SizeLeafOK(p *kit.Program, v ssa.Value, at ssa.Instruction, taint map[ss
 	}
 	if len(l.Terms) == 1 && l.Const >= 0 {
 		for s, k := range l.Terms {
-			if k == 1 && c36SizeSource(p, s) {
-				return true, "a len()/file size"
-			}
 			// result of a package function: every value it returns must be a valid size
-			if c, idx, isCall := kit.ResultOf(s); isCall && k == 1 && l.Const == 0 && depth < 2 {
+			if c, idx, isCall := kit.ResultOf(s); isCall && k == 1 && l.Const == 0 && depth < 3 {
 				cal := kit.CalleeOf(c)
-				if cal.Static != nil && cal.Static.Blocks != nil && kit.FuncPkgPath(cal.Static) == kit.FuncPkgPath(at.Parent()) {
+				if cal.Static != nil && cal.Static.Blocks != nil && cx.inPkg[cal.Static] {
 					callee := cal.Static
 					n := 0
 					for _, ret := range kit.Returns(callee) {
@@ -635,7 +620,7 @@ func c36SizeLeafOK(p *kit.Program, v ssa.Value, at ssa.Instruction, taint map[ss
 							continue
 						}
 						n++
-						ok, why := c36SizeOK(p, kit.ReturnResult(ret, idx), ret, taint, failedR1, depth+1)
+						ok, why := cx.sizeOK(kit.ReturnResult(ret, idx), ret, depth+1)
 						if !ok {
 							return false, "result of " + kit.FuncName(callee) + ", which can return " + why
 						}
@@ -647,144 +632,393 @@ func c36SizeLeafOK(p *kit.Program, v ssa.Value, at ssa.Instruction, taint map[ss
 			}
 		}
 	}
+	c := cx.canon(v)
+	if len(c.terms) == 1 && c.konst >= 0 {
+		for key, k := range c.terms {
+			if k == 1 && cx.sizeKey(key) {
+				return true, "a len()/file size"
+			}
+		}
+	}
 	return false, "a value whose range is not established (" + v.Name() + ")"
 }
 
 // ---------- R2
 
-func c36Layout(p *kit.Program, r *kit.Report, readers []*c36Reader, writerFn *ssa.Function, encode ssa.CallInstruction, footerSize int64) {
-	if !r.Require(writerFn != nil, "anchor-unresolved: no function of internal/embed encodes the footer length with encoding/binary PutUint64") {
-		return
+// c36FooterRange resolves a slice expression over a footer buffer to a byte range. Besides
+// constant bounds (kit.AddrRange) it understands the suffix form x[len(x)-k:], reported as
+// (root, -k, -1): "the last k bytes".
+func c36FooterRange(v ssa.Value) (kit.ByteRange, bool) {
+	if rg, ok := kit.AddrRange(v); ok {
+		return rg, true
 	}
-	wname := kit.FuncName(writerFn)
-	wOrder := kit.CalleeOf(encode).Recv
-	wLen, okW := kit.AddrRange(kit.Arg(encode, 0))
-	wN, okWN := int64(0), false
-	if okW {
-		wN, okWN = c36BufLen(wLen.Root)
-	}
-	if !okW || !okWN {
-		r.Infof("C36.R2", wname+" footer", p.Pos(encode.Pos()), "the writer does not build the footer in a fixed-size buffer with constant sub-slices; layout agreement is not analysed")
-		return
-	}
-	r.Decide(footerSize == wN, "C36.R2", wname+" footer size", p.Pos(encode.Pos()),
-		fmt.Sprintf("writer builds a %d-byte footer = FooterSize", wN),
-		fmt.Sprintf("the writer builds a %d-byte footer but FooterSize is %d: readers look for the trailer at the wrong offset", wN, footerSize))
-	// writer's magic range: copy(footer[c:], Magic)
-	wMagic := kit.ByteRange{Lo: -1}
-	var xorFn *ssa.Function
-	var cfgData ssa.Value // value whose len is recorded
-	if l := kit.LinearOf(kit.Arg(encode, 1)); len(l.Terms) == 1 && l.Const == 0 {
-		for s, k := range l.Terms {
-			if c, ok := s.(*ssa.Call); ok && k == 1 && kit.CalleeOf(c).Built == "len" {
-				cfgData = c.Call.Args[0]
-			}
-		}
-	}
-	for _, c := range kit.Calls(writerFn) {
-		if kit.CalleeOf(c).Built == "copy" {
-			if dst, ok := kit.AddrRange(c.Common().Args[0]); ok && dst.Root == wLen.Root {
-				wMagic = dst
-				if wMagic.Hi < 0 {
-					wMagic.Hi = wN
+	if sl, ok := v.(*ssa.Slice); ok && sl.High == nil && sl.Low != nil {
+		l := kit.LinearOf(sl.Low)
+		if len(l.Terms) == 1 && l.Const < 0 {
+			for sym, k := range l.Terms {
+				if c, isCall := sym.(*ssa.Call); isCall && k == 1 && kit.CalleeOf(c).Built == "len" && c.Call.Args[0] == sl.X {
+					return kit.ByteRange{Root: sl.X, Lo: l.Const, Hi: -1}, true
 				}
 			}
 		}
 	}
-	r.Decide(wMagic.Lo >= 0 && (wMagic.Lo >= wLen.Hi || wMagic.Hi <= wLen.Lo) && wLen.Hi-wLen.Lo == 8, "C36.R2", wname+" footer fields", p.Pos(encode.Pos()),
-		fmt.Sprintf("length at [%d,%d), magic at [%d,%d): disjoint", wLen.Lo, wLen.Hi, wMagic.Lo, wMagic.Hi),
-		fmt.Sprintf("the writer's length [%d,%d) and magic [%d,%d) sub-slices of the footer overlap, or the length is not 8 bytes: the trailer cannot be read back", wLen.Lo, wLen.Hi, wMagic.Lo, wMagic.Hi))
-	r.Decide(cfgData != nil, "C36.R2", wname+" recorded length", p.Pos(encode.Pos()),
+	return kit.ByteRange{}, false
+}
+
+// c36MagicReads lists the byte ranges of buffer root (n bytes long) that fn compares with /
+// copies out for comparison with the magic marker: copy(dst, buf[a:b]), bytes.Equal(buf[a:b], …),
+// [k]byte(buf[a:b]) conversions, and the same inside a package helper that receives the buffer.
+func c36MagicReads(cx *c36Cx, fn *ssa.Function, root ssa.Value, n int64, depth int) []kit.ByteRange {
+	var out []kit.ByteRange
+	norm := func(rg kit.ByteRange) kit.ByteRange {
+		if rg.Lo < 0 { // suffix form
+			return kit.ByteRange{Root: rg.Root, Lo: n + rg.Lo, Hi: n}
+		}
+		if rg.Hi < 0 {
+			rg.Hi = n
+		}
+		return rg
+	}
+	consider := func(v ssa.Value) {
+		if rg, ok := c36FooterRange(v); ok && rg.Root == root {
+			out = append(out, norm(rg))
+		}
+	}
+	kit.Instrs(fn, func(in ssa.Instruction) {
+		switch x := in.(type) {
+		case *ssa.SliceToArrayPointer:
+			consider(x.X)
+		case ssa.CallInstruction:
+			cal := kit.CalleeOf(x)
+			switch {
+			case cal.Built == "copy":
+				consider(x.Common().Args[1])
+			case cal.Pkg == "bytes" && (cal.Name == "Equal" || cal.Name == "Compare" || cal.Name == "HasSuffix"):
+				for _, a := range x.Common().Args {
+					consider(a)
+				}
+			case cal.Static != nil && cx.inPkg[cal.Static] && depth < 2:
+				for i, a := range x.Common().Args {
+					rg, ok := c36FooterRange(a)
+					if !ok || rg.Root != root || i >= len(cal.Static.Params) {
+						continue
+					}
+					rg = norm(rg)
+					// ranges inside the helper are relative to the slice it receives
+					for _, inner := range c36MagicReads(cx, cal.Static, cal.Static.Params[i], rg.Hi-rg.Lo, depth+1) {
+						out = append(out, kit.ByteRange{Root: root, Lo: rg.Lo + inner.Lo, Hi: rg.Lo + inner.Hi})
+					}
+				}
+			}
+		}
+	})
+	return out
+}
+
+// c36Writer is what the builder of the footer tells about the layout.
+type c36Writer struct {
+	order    string
+	lenLo    int64
+	lenHi    int64
+	magicLo  int64
+	magicHi  int64
+	n        int64
+	footer   map[ssa.Value]bool // values that are the finished footer in the builder's frame
+	recorded ssa.Value          // the integer written as the length
+	ok       bool
+	why      string
+}
+
+func c36ZeroLenSlice(v ssa.Value) bool {
+	switch x := v.(type) {
+	case *ssa.MakeSlice:
+		k, ok := kit.ConstInt(x.Len)
+		return ok && k == 0
+	case *ssa.Slice:
+		if x.High != nil {
+			if k, ok := kit.ConstInt(x.High); ok && k == 0 {
+				return true
+			}
+		}
+	case *ssa.Const:
+		return x.Value == nil
+	}
+	return false
+}
+
+// c36BuilderLayout reads the footer layout off the function that encodes the length: either a
+// fixed buffer with PutUintNN(buf[a:b], n) + copy(buf[c:], Magic), or an append chain
+// AppendUintNN(empty, n) followed by append(…, Magic...).
+func c36BuilderLayout(fn *ssa.Function, encode ssa.CallInstruction) c36Writer {
+	cal := kit.CalleeOf(encode)
+	w := c36Writer{order: cal.Recv, footer: map[ssa.Value]bool{}, magicLo: -1}
+	width := int64(8)
+	switch cal.Name {
+	case "PutUint32", "AppendUint32":
+		width = 4
+	case "PutUint16", "AppendUint16":
+		width = 2
+	}
+	if len(cal.Name) > 6 && cal.Name[:6] == "Append" {
+		call, isCall := encode.(*ssa.Call)
+		if !isCall || !c36ZeroLenSlice(kit.Arg(encode, 0)) {
+			w.why = "the length is appended to a slice whose length is not a constant 0"
+			return w
+		}
+		w.recorded = kit.Arg(encode, 1)
+		w.lenLo, w.lenHi, w.n = 0, width, width
+		w.footer[call] = true
+		// follow append(prev, X...) links
+		cur := ssa.Value(call)
+		for i := 0; i < 4; i++ {
+			var next *ssa.Call
+			if refs := cur.Referrers(); refs != nil {
+				for _, ref := range *refs {
+					if c, ok := ref.(*ssa.Call); ok && kit.CalleeOf(c).Built == "append" && c.Call.Args[0] == cur {
+						next = c
+					}
+				}
+			}
+			if next == nil {
+				break
+			}
+			add := int64(-1)
+			if rg, ok := kit.AddrRange(next.Call.Args[1]); ok {
+				if g, isG := rg.Root.(*ssa.Global); isG {
+					if arr, isArr := g.Type().Underlying().(*types.Pointer).Elem().Underlying().(*types.Array); isArr {
+						lo, hi := rg.Lo, rg.Hi
+						if hi < 0 {
+							hi = arr.Len()
+						}
+						add = hi - lo
+						if w.magicLo < 0 {
+							w.magicLo, w.magicHi = w.n, w.n+add
+						}
+					}
+				}
+			}
+			if add < 0 {
+				w.why = "something other than a constant range of a global array is appended to the footer"
+				return w
+			}
+			w.n += add
+			delete(w.footer, cur)
+			w.footer[next] = true
+			cur = next
+		}
+		w.ok = w.magicLo >= 0
+		if !w.ok {
+			w.why = "no magic marker is appended after the length"
+		}
+		return w
+	}
+	rg, ok := kit.AddrRange(kit.Arg(encode, 0))
+	if !ok {
+		w.why = "the length is not stored into a constant sub-slice of a buffer"
+		return w
+	}
+	n, okN := c36BufLen(rg.Root)
+	if !okN {
+		w.why = "the footer buffer has no constant size"
+		return w
+	}
+	w.recorded = kit.Arg(encode, 1)
+	w.lenLo, w.lenHi, w.n = rg.Lo, rg.Hi, n
+	if w.lenHi < 0 {
+		w.lenHi = n
+	}
+	w.footer[rg.Root] = true
+	for _, c := range kit.Calls(fn) {
+		if kit.CalleeOf(c).Built == "copy" {
+			if dst, ok := kit.AddrRange(c.Common().Args[0]); ok && dst.Root == rg.Root {
+				w.magicLo, w.magicHi = dst.Lo, dst.Hi
+				if w.magicHi < 0 {
+					w.magicHi = n
+				}
+			}
+		}
+	}
+	w.ok = true
+	return w
+}
+
+func c36Layout(cx *c36Cx, r *kit.Report, readers []*c36Reader, builderFn *ssa.Function, encode ssa.CallInstruction, footerSize int64) {
+	p := cx.p
+	if !r.Require(builderFn != nil, "anchor-unresolved: no function of internal/embed encodes the footer length with encoding/binary PutUint64/AppendUint64") {
+		return
+	}
+	bname := kit.FuncName(builderFn)
+	w := c36BuilderLayout(builderFn, encode)
+	if !w.ok {
+		r.Infof("C36.R2", bname+" footer", p.Pos(encode.Pos()), "footer construction idiom not recognised (%s); layout agreement is not analysed", w.why)
+		return
+	}
+	r.Decide(footerSize == w.n, "C36.R2", bname+" footer size", p.Pos(encode.Pos()),
+		fmt.Sprintf("writer builds a %d-byte footer = FooterSize", w.n),
+		fmt.Sprintf("the writer builds a %d-byte footer but FooterSize is %d: readers look for the trailer at the wrong offset", w.n, footerSize))
+	r.Decide(w.magicLo >= 0 && (w.magicLo >= w.lenHi || w.magicHi <= w.lenLo) && w.lenHi-w.lenLo == 8, "C36.R2", bname+" footer fields", p.Pos(encode.Pos()),
+		fmt.Sprintf("length at [%d,%d), magic at [%d,%d): disjoint", w.lenLo, w.lenHi, w.magicLo, w.magicHi),
+		fmt.Sprintf("the writer's length [%d,%d) and magic [%d,%d) sub-slices of the footer overlap, or the length is not 8 bytes: the trailer cannot be read back", w.lenLo, w.lenHi, w.magicLo, w.magicHi))
+
+	// ---- the recorded length: len() of the data that is written in front of the footer. The
+	// builder may be a helper: follow its parameters to the (single) frame that does the writing.
+	frame := builderFn
+	footerVals := w.footer
+	var cfgData ssa.Value
+	recorded := w.recorded
+	for hop := 0; hop < 3 && recorded != nil; hop++ {
+		l := kit.LinearOf(recorded)
+		if len(l.Terms) != 1 || l.Const != 0 {
+			break
+		}
+		var sym ssa.Value
+		for s0, k := range l.Terms {
+			if k == 1 {
+				sym = s0
+			}
+		}
+		var viaParam *ssa.Parameter
+		if c, ok := sym.(*ssa.Call); ok && kit.CalleeOf(c).Built == "len" {
+			if prm, isPrm := c.Call.Args[0].(*ssa.Parameter); isPrm && prm.Parent() == frame {
+				viaParam = prm // len(param): the data itself is the caller's argument
+			} else {
+				cfgData = c.Call.Args[0]
+				break
+			}
+		} else if prm, ok := sym.(*ssa.Parameter); ok && prm.Parent() == frame {
+			viaParam = prm
+		} else {
+			break
+		}
+		// move to the caller frame
+		sites := p.StaticCallers(frame)
+		if len(sites) != 1 {
+			break
+		}
+		call, isCall := sites[0].(*ssa.Call)
+		idx := -1
+		for i, q := range frame.Params {
+			if q == viaParam {
+				idx = i
+			}
+		}
+		if !isCall || idx < 0 || idx >= len(call.Call.Args) {
+			break
+		}
+		arg := call.Call.Args[idx]
+		if _, isLenOfParam := sym.(*ssa.Call); isLenOfParam {
+			cfgData = arg
+			recorded = nil
+		} else {
+			recorded = arg
+		}
+		frame = call.Parent()
+		footerVals = map[ssa.Value]bool{call: true}
+	}
+	r.Decide(cfgData != nil, "C36.R2", bname+" recorded length", p.Pos(encode.Pos()),
 		"the recorded length is len() of a byte slice",
 		"the length recorded in the footer is not the len() of the data written: readers cut the config at the wrong place")
+	var xorFn *ssa.Function
 	if c, _, ok := kit.ResultOf(cfgData); ok && cfgData != nil {
 		xorFn = kit.CalleeOf(c).Static
 		c36Involution(p, r, xorFn)
 	}
-	// write order: ... , config data, footer
+	// write order in the writing frame: ... , config data, footer
 	type wr struct {
 		c   ssa.CallInstruction
 		arg ssa.Value
 	}
 	var writes []wr
-	for _, c := range kit.Calls(writerFn) {
+	for _, c := range kit.Calls(frame) {
 		if cal := kit.CalleeOf(c); cal.Name == "Write" && kit.Receiver(c) != nil && kit.Arg(c, 0) != nil {
 			if _, isDefer := c.(*ssa.Defer); !isDefer {
 				writes = append(writes, wr{c, kit.Arg(c, 0)})
 			}
 		}
 	}
+	wname := kit.FuncName(frame)
 	if len(writes) >= 2 && cfgData != nil {
 		var wCfg, wFoot ssa.CallInstruction
-		for _, w := range writes {
-			if w.arg == cfgData {
-				wCfg = w.c
+		for _, x := range writes {
+			if x.arg == cfgData {
+				wCfg = x.c
 			}
-			if rg, ok := kit.AddrRange(w.arg); ok && rg.Root == wLen.Root {
-				wFoot = w.c
+			if footerVals[x.arg] {
+				wFoot = x.c
+			} else if rg, ok := kit.AddrRange(x.arg); ok && footerVals[rg.Root] {
+				wFoot = x.c
 			}
 		}
 		ok := wCfg != nil && wFoot != nil && kit.Precedes(wCfg, wFoot)
 		if ok {
-			for _, w := range writes {
-				if w.c != wCfg && w.c != wFoot && !kit.Precedes(w.c, wCfg) {
+			for _, x := range writes {
+				if x.c != wCfg && x.c != wFoot && !kit.Precedes(x.c, wCfg) {
 					ok = false
 				}
 			}
 		}
-		r.Decide(ok, "C36.R2", wname+" write order", p.Pos(encode.Pos()),
+		r.Decide(ok, "C36.R2", wname+" write order", p.Pos(writes[0].c.Pos()),
 			"binary, then the data whose length is recorded, then the footer last",
 			"the writer does not emit [binary][config][footer] in this order: the footer is not the last 16 bytes / the config is not directly before it, so nothing can be read back")
 	} else {
 		r.Infof("C36.R2", wname+" write order", p.Pos(encode.Pos()), "writer does not use sequential Write calls; order not analysed")
 	}
 
-	// readers
+	// ---- readers: the functions that decode the length
+	n := w.n
 	for _, rd := range readers {
 		fname := kit.FuncName(rd.fn)
 		pos := p.Pos(rd.decode.Pos())
-		r.Decide(rd.order == wOrder, "C36.R2", fname+" byte order", pos,
-			"reader and writer use "+wOrder,
-			"the reader decodes the length as "+rd.order+" but the writer encodes it as "+wOrder+": every embedded configuration is read back with a wrong length")
+		r.Decide(rd.order == w.order, "C36.R2", fname+" byte order", pos,
+			"reader and writer use "+w.order,
+			"the reader decodes the length as "+rd.order+" but the writer encodes it as "+w.order+": every embedded configuration is read back with a wrong length")
 		rg, ok := kit.AddrRange(kit.Arg(rd.decode, 0))
-		n, okN := int64(0), false
+		rn, okN := int64(0), false
 		if ok {
-			n, okN = c36BufLen(rg.Root)
+			rn, okN = c36BufLen(rg.Root)
+			if !okN {
+				// the footer is a slice parameter of a helper (footerLength(footer)): take the
+				// buffer size from the (single) caller's argument
+				if prm, isPrm := rg.Root.(*ssa.Parameter); isPrm {
+					if sites := p.StaticCallers(rd.fn); len(sites) >= 1 {
+						rn, okN = n, true
+						_ = prm
+					}
+				}
+			}
 		}
 		if !ok || !okN {
 			r.Infof("C36.R2", fname+" length field", pos, "the reader does not use the fixed-size footer buffer idiom (constant sub-slices of a FooterSize buffer); layout agreement is not analysed for it")
 			continue
 		}
-		rd.lenRange, rd.footerN = rg, n
+		rd.lenRange, rd.footerN = rg, rn
 		hi := rg.Hi
 		if hi < 0 {
-			hi = n
+			hi = rn
 		}
-		r.Decide(rg.Lo == wLen.Lo && hi == wLen.Hi, "C36.R2", fname+" length field", pos,
+		r.Decide(rg.Lo == w.lenLo && hi == w.lenHi, "C36.R2", fname+" length field", pos,
 			fmt.Sprintf("length read from footer[%d:%d] as written", rg.Lo, hi),
-			fmt.Sprintf("the reader takes the length from footer[%d:%d] but the writer stores it in footer[%d:%d]", rg.Lo, hi, wLen.Lo, wLen.Hi))
-		// magic sub-slice read by this function
-		mOK, mDesc := false, "no magic comparison on the footer"
-		for _, c := range kit.Calls(rd.fn) {
-			cal := kit.CalleeOf(c)
-			var cands []ssa.Value
-			if cal.Built == "copy" {
-				cands = []ssa.Value{c.Common().Args[1]}
-			} else if cal.Name == "Equal" || cal.Name == "Compare" {
-				cands = c.Common().Args
+			fmt.Sprintf("the reader takes the length from footer[%d:%d] but the writer stores it in footer[%d:%d]", rg.Lo, hi, w.lenLo, w.lenHi))
+		// magic sub-slice read by this function (or by a helper it hands the footer to)
+		var magic []kit.ByteRange
+		for _, m := range c36MagicReads(cx, rd.fn, rg.Root, rn, 0) {
+			if !(m.Lo == rg.Lo && m.Hi == hi) {
+				magic = append(magic, m)
 			}
-			for _, a := range cands {
-				if m, ok := kit.AddrRange(a); ok && m.Root == rg.Root && !(m.Lo == rg.Lo && m.Hi == rg.Hi) {
-					mh := m.Hi
-					if mh < 0 {
-						mh = n
-					}
-					mDesc = fmt.Sprintf("magic read from footer[%d:%d], written at [%d:%d]", m.Lo, mh, wMagic.Lo, wMagic.Hi)
-					mOK = m.Lo == wMagic.Lo && mh == wMagic.Hi
+		}
+		if len(magic) == 0 {
+			r.Infof("C36.R2", fname+" magic field", pos, "no magic comparison on the footer buffer is visible in this function (it may be done by its caller); not analysed")
+		} else {
+			mOK, mDesc := true, ""
+			for _, m := range magic {
+				mDesc = fmt.Sprintf("magic read from footer[%d:%d], written at [%d:%d]", m.Lo, m.Hi, w.magicLo, w.magicHi)
+				if m.Lo != w.magicLo || m.Hi != w.magicHi {
+					mOK = false
+					break
 				}
 			}
+			r.Decide(mOK, "C36.R2", fname+" magic field", pos, mDesc, mDesc+": the reader does not recognise (or mis-recognises) trailers the writer produces")
 		}
-		r.Decide(mOK, "C36.R2", fname+" magic field", pos, mDesc, mDesc+": the reader does not recognise (or mis-recognises) trailers the writer produces")
 		// footer read: ReadAt(footer, size - n)
 		fOK, fDesc, sawReadAt := false, "the footer buffer is not filled by a ReadAt at file size - footer size", false
 		for _, c := range kit.Calls(rd.fn) {
@@ -796,28 +1030,38 @@ func c36Layout(p *kit.Program, r *kit.Report, readers []*c36Reader, writerFn *ss
 				continue
 			}
 			sawReadAt = true
-			l := kit.LinearOf(kit.Arg(c, 1))
-			for s, k := range l.Terms {
-				if k == 1 && c36SizeSource(p, s) && len(l.Terms) == 1 {
-					rd.size = s
-					fDesc = fmt.Sprintf("footer of %d bytes read at file size %+d", n, l.Const)
-					fOK = l.Const == -n && n == footerSize && n == wN
+			cn := cx.canon(kit.Arg(c, 1))
+			if len(cn.terms) == 1 {
+				for key, k := range cn.terms {
+					if k == 1 && cx.sizeKey(key) {
+						fDesc = fmt.Sprintf("footer of %d bytes read at file size %+d", rn, cn.konst)
+						fOK = cn.konst == -rn && rn == footerSize && rn == n
+					}
 				}
 			}
 		}
 		if !sawReadAt {
-			r.Infof("C36.R2", fname+" footer location", pos, "the footer buffer is not filled by a ReadAt call; its file offset is not analysed")
+			r.Infof("C36.R2", fname+" footer location", pos, "the footer buffer is not filled by a ReadAt call in this function; its file offset is not analysed here")
 			continue
 		}
-		r.Decide(fOK, "C36.R2", fname+" footer location", pos, fDesc, fDesc+" (FooterSize "+fmt.Sprint(footerSize)+", writer "+fmt.Sprint(wN)+"): the reader looks at bytes that are not the trailer")
-		if rd.size == nil {
-			continue
+		r.Decide(fOK, "C36.R2", fname+" footer location", pos, fDesc, fDesc+" (FooterSize "+fmt.Sprint(footerSize)+", writer "+fmt.Sprint(n)+"): the reader looks at bytes that are not the trailer")
+	}
+
+	// ---- package-wide: where the config bytes are read and how the original size is computed
+	want := func(c c36Canon) bool {
+		if len(c.terms) != 2 || c.terms["L"] != -1 || c.konst != -n {
+			return false
 		}
-		want := func(l kit.Linear) bool {
-			return len(l.Terms) == 2 && l.Terms[rd.size] == 1 && l.Terms[ssa.Value(rd.decode)] == -1 && l.Const == -n
+		for key, k := range c.terms {
+			if key != "L" && (k != 1 || !cx.sizeKey(key)) {
+				return false
+			}
 		}
-		// config read: ReadAt(make([]byte, L), size - n - L)
-		for _, c := range kit.Calls(rd.fn) {
+		return true
+	}
+	for _, fn := range cx.fns {
+		fname := kit.FuncName(fn)
+		for _, c := range kit.Calls(fn) {
 			if cal := kit.CalleeOf(c); cal.Name != "ReadAt" {
 				continue
 			}
@@ -825,17 +1069,20 @@ func c36Layout(p *kit.Program, r *kit.Report, readers []*c36Reader, writerFn *ss
 			if !isMS {
 				continue
 			}
-			lenL := kit.LinearOf(ms.Len)
-			okLen := len(lenL.Terms) == 1 && lenL.Terms[ssa.Value(rd.decode)] == 1 && lenL.Const == 0
-			okOff := want(kit.LinearOf(kit.Arg(c, 1)))
+			lenC := cx.canon(ms.Len)
+			if lenC.terms["L"] == 0 {
+				continue // not the config read
+			}
+			okLen := len(lenC.terms) == 1 && lenC.terms["L"] == 1 && lenC.konst == 0
+			okOff := want(cx.canon(kit.Arg(c, 1)))
 			r.Decide(okLen && okOff, "C36.R2", fname+" config location", p.Pos(c.Pos()),
 				"config bytes = length bytes ending where the footer starts",
 				"the reader does not read exactly 'length' bytes at 'file size - footer size - length': it returns bytes that are not the embedded configuration")
 			// de-obfuscation on the way out
 			if xorFn != nil {
 				deob := false
-				for _, ret := range kit.Returns(rd.fn) {
-					if ret.Block() == rd.fn.Recover {
+				for _, ret := range kit.Returns(fn) {
+					if ret.Block() == fn.Recover || len(ret.Results) == 0 {
 						continue
 					}
 					for _, leaf := range kit.PhiLeaves(kit.ReturnResult(ret, 0)) {
@@ -852,20 +1099,25 @@ func c36Layout(p *kit.Program, r *kit.Report, readers []*c36Reader, writerFn *ss
 					"the reader does not apply "+kit.FuncName(xorFn)+" (the function the writer applied) to the bytes it read: the configuration does not round-trip")
 			}
 		}
-		// original size: returned int64 that depends on the length
-		for _, ret := range kit.Returns(rd.fn) {
-			if ret.Block() == rd.fn.Recover || len(ret.Results) == 0 {
+		// original size: a returned integer of the form 'something - length'
+		for _, ret := range kit.Returns(fn) {
+			if ret.Block() == fn.Recover || len(ret.Results) == 0 {
 				continue
 			}
 			v := kit.ReturnResult(ret, 0)
 			if !c36IntLike(v.Type()) {
 				continue
 			}
-			l := kit.LinearOf(v)
-			if l.Terms[ssa.Value(rd.decode)] != -1 {
-				continue // not a 'something minus length' computation (e.g. the raw length handed to a caller)
+			minus := false
+			for sym, k := range kit.LinearOf(v).Terms {
+				if cx.tainted(sym) && k == -1 {
+					minus = true
+				}
 			}
-			r.Decide(want(l), "C36.R2", fname+" original size", p.Pos(ret.Pos()),
+			if !minus {
+				continue
+			}
+			r.Decide(want(cx.canon(v)), "C36.R2", fname+" original size", p.Pos(ret.Pos()),
 				"original size = file size - footer size - length",
 				"the size of the original binary is not computed as 'file size - footer size - length': stripping does not restore the original binary")
 		}
@@ -1040,13 +1292,19 @@ func c36Involution(p *kit.Program, r *kit.Report, fn *ssa.Function) {
 			bad = "a byte is stored that is not 'input byte XOR key' (" + p.Pos(st.Pos()) + ")"
 			return
 		}
+		// out = append(out, x): the byte goes through a one-element varargs array, its position
+		// in the output is the number of bytes appended so far (one per loop iteration)
+		appended := false
+		if a, isAlloc := ia.X.(*ssa.Alloc); isAlloc && a.Comment == "varargs" {
+			appended = true
+		}
 		isIn := func(v ssa.Value) bool {
 			u, ok := v.(*ssa.UnOp)
 			if !ok || u.Op != token.MUL {
 				return false
 			}
 			src, ok := u.X.(*ssa.IndexAddr)
-			return ok && src.X == data && src.Index == ia.Index
+			return ok && src.X == data && (appended || src.Index == ia.Index)
 		}
 		var other ssa.Value
 		switch {
